@@ -219,7 +219,7 @@ impl Spec {
 			rule: rule.to_string(),
 			assumptions: vec![],
 			shards: 16,
-			budget_s: (60, 600),
+			budget_s: (90, 900),
 			crash_is_violation: true,
 			required: vec![],
 			min_distinct: 2,
@@ -485,6 +485,7 @@ pub fn main_entry(
 			out: None,
 			last_checkpoint: std::cell::Cell::new(None),
 		};
+		crate::scratch::install_logger();
 		let mut rep = Report::default();
 		shard_fn(&ctx, &mut rep);
 		for v in &rep.violations {
@@ -781,13 +782,13 @@ pub fn main_entry(
 		let _ = writeln!(so, "  sig: {}\n  detail: {}", sig, d.replace('\n', "\n    "));
 	}
 	let _ = std::fs::remove_dir_all(&work);
+	for i in merged.inconclusive.iter().take(10) {
+		let _ = writeln!(so, "INCONCLUSIVE: {}", i);
+	}
 	if !new_violations.is_empty() {
 		std::process::exit(1);
 	}
 	if !merged.inconclusive.is_empty() {
-		for i in merged.inconclusive.iter().take(10) {
-			let _ = writeln!(so, "INCONCLUSIVE: {}", i);
-		}
 		std::process::exit(2);
 	}
 	let _ = writeln!(so, "OK property={} held on everything explored", spec.prop);
